@@ -228,7 +228,9 @@ type op struct {
 // returns its record; status requests return a sample instead.
 func (w *world) do(g, i int, o op, queue bool) (*call, *sample) {
 	wl := w.n.w
-	exec := func(fn string, m types.Message) (types.Message, error) { return wl.GetAPI().ExecWalletFunc("wallet", fn, m) }
+	exec := func(fn string, m types.Message) (types.Message, error) {
+		return wl.GetAPI().ExecWalletFunc("wallet", fn, m)
+	}
 	replyErr := func(r types.Message, err error) error { // handlers that report failure inside a Reply
 		if err == nil && r != nil {
 			if rp, ok := r.(*types.Reply); ok && !rp.IsOk {
@@ -697,7 +699,9 @@ func TestKnown_SetPasswdLostLock(t *testing.T) {
 // as a failure here and not as a false alarm (or a missed alarm) in the search.
 func TestRegress_OracleSelfTest(t *testing.T) {
 	defer lib.Flush()
-	U := func(inv, res uint64, pw string) call { return call{Kind: "unlock", Inv: inv, Res: res, OK: true, Pw: pw} }
+	U := func(inv, res uint64, pw string) call {
+		return call{Kind: "unlock", Inv: inv, Res: res, OK: true, Pw: pw}
+	}
 	L := func(inv, res uint64) call { return call{Kind: "lock", Inv: inv, Res: res, OK: true} }
 	S := func(inv, res uint64, ok bool, old, nw string) call {
 		return call{Kind: "chpass", Inv: inv, Res: res, OK: ok, Pw: old, New: nw}
